@@ -1184,6 +1184,30 @@ class Controller:
         self, peer_address: hci.Address, link_type: int
     ) -> None:
         if link_type == hci.HCI_Connection_Complete_Event.LinkType.ACL:
+            if connection := self.classic_connections.get(peer_address):
+                if connection.handle != 0 or (
+                    connection.role == hci.Role.CENTRAL
+                    and bytes(self.public_address) > bytes(peer_address)
+                ):
+                    # Already connected, or the two devices page each other at the
+                    # same time and this one's page prevails
+                    self.send_lmp_packet(
+                        peer_address,
+                        lmp.LmpNotAccepted(
+                            lmp.Opcode.LMP_HOST_CONNECTION_REQ,
+                            hci.HCI_ErrorCode.LMP_ERROR_TRANSACTION_COLLISION_OR_LL_PROCEDURE_COLLISION_ERROR,
+                        ),
+                    )
+                    return
+                if connection.role == hci.Role.CENTRAL:
+                    # This device's own page gives way to the peer's
+                    self.classic_pending_commands.get(peer_address, {}).pop(
+                        lmp.Opcode.LMP_HOST_CONNECTION_REQ, None
+                    )
+                    self.on_classic_connection_complete(
+                        peer_address,
+                        hci.HCI_ErrorCode.LMP_ERROR_TRANSACTION_COLLISION_OR_LL_PROCEDURE_COLLISION_ERROR,
+                    )
             self.classic_connections[peer_address] = Connection(
                 controller=self,
                 handle=0,
